@@ -5,6 +5,7 @@ import (
 	"go/ast"
 	"go/token"
 	"go/types"
+	"os"
 	"sort"
 	"strings"
 )
@@ -213,6 +214,15 @@ func (c *cliClient) noteReadErr(st *State) *State {
 	if k == "" {
 		return nil
 	}
+	// (*bufio.Scanner).Err never returns io.EOF: a path on which its result is found to be io.EOF is one on which
+	// nothing went wrong (the defensive `err != nil && err != io.EOF`)
+	for _, rk := range st.Keys() {
+		if strings.HasPrefix(rk, "(") && strings.Contains(rk, " == ") && strings.Contains(rk, k) && strings.Contains(rk, "io.EOF") {
+			if g := st.Get(rk); g != nil && g.HasEq && g.Eq == "true" && st.Ext("readerr") != "nil" {
+				return st.WithExt("readerr", "nil")
+			}
+		}
+	}
 	f := st.Get(k)
 	switch {
 	case f == nil:
@@ -220,6 +230,9 @@ func (c *cliClient) noteReadErr(st *State) *State {
 	case f.Nil == 1:
 		return st.WithExt("readerr", "nil")
 	case f.Nil == 2:
+		if st.Ext("readerr") == "nil" {
+			return nil // found to be io.EOF above
+		}
 		return st.WithExt("readerr", "nonnil")
 	}
 	return nil
@@ -248,10 +261,24 @@ func (c *cliClient) PreCall(e *Engine, st *State, call *ast.CallExpr, callee *ty
 		if !ok {
 			e.Site("C16/prelude", key, call, false, "statement is compiled without the accumulated let statements in front: earlier bindings are silently out of scope for it")
 		}
+		// C16/readerr: what is still pending when the read loop ends is a statement only if the input was read
+		// completely; after a read error it is a fragment (the lines before the failure)
+		at := call.Pos()
+		if fr := e.Frames(); len(fr) > 0 {
+			at = fr[0].Call.Pos()
+		}
+		if c.loopEnd.IsValid() && at > c.loopEnd && e.Lit == nil {
+			rkey := key + " after the read loop"
+			okRead := st.Ext("readerr") == "nil"
+			e.Site("C16/readerr", rkey, call, okRead, "the pending text is compiled only once Scanner.Err() is known to be nil")
+			if !okRead {
+				e.Site("C16/readerr", rkey, call, false, "the text that is pending when the read loop ends is compiled on a path where Scanner.Err() has not been found to be nil: after a read error that text is a fragment of a statement, and its SQL would be printed as if the fragment had been given")
+			}
+		}
 		return nil
 	}
 	// C16/let-on-success: the prelude only grows after the statement compiled.
-	if sel, ok := ast.Unparen(call.Fun).(*ast.SelectorExpr); ok && c.prelude != nil && c.ent(e, sel.X) == c.prelude && strings.HasPrefix(sel.Sel.Name, "Write") {
+	if written, isPW := c.preludeWrite(e, call); isPW {
 		// snapshots of the prelude taken before this write are stale now
 		for k := range st.ext {
 			if strings.HasPrefix(k, "snap:") {
@@ -259,14 +286,16 @@ func (c *cliClient) PreCall(e *Engine, st *State, call *ast.CallExpr, callee *ty
 			}
 		}
 		key := fmt.Sprintf("%s prelude write #%d", c.where(e), c.ordinal(e, call, func(cc *ast.CallExpr) bool {
-			s2, ok := ast.Unparen(cc.Fun).(*ast.SelectorExpr)
-			return ok && c.ent(e, s2.X) == c.prelude && strings.HasPrefix(s2.Sel.Name, "Write")
+			_, is := c.preludeWrite(e, cc)
+			return is
 		}))
 		ok := c.compileOK(st)
 		// what is written must be (part of) what was validated, or a constant
-		if ok && len(call.Args) == 1 && constOf(info, call.Args[0]) == nil {
-			if o := objOf(info, call.Args[0]); o == nil || !strings.Contains(","+st.Ext("compiledvars")+",", ","+e.objKey(o)+",") {
-				ok = false
+		for _, w := range written {
+			if ok && constOf(info, w) == nil {
+				if o := objOf(info, w); o == nil || !strings.Contains(","+st.Ext("compiledvars")+",", ","+e.objKey(o)+",") {
+					ok = false
+				}
 			}
 		}
 		e.Site("C16/let-on-success", key, call, ok, "prelude grows only under `err == nil` of the Compile call that validated this statement")
@@ -317,6 +346,62 @@ func (c *cliClient) PreCall(e *Engine, st *State, call *ast.CallExpr, callee *ty
 		return st
 	}
 	return nil
+}
+
+// preludeWrite: a call that adds text to the let prelude - a Write* method of the builder, or any call that is
+// handed the builder to write into (fmt.Fprintf(letStatements, ...), io.WriteString(letStatements, ...)).
+// Returns what is written.
+func (c *cliClient) preludeWrite(e *Engine, call *ast.CallExpr) ([]ast.Expr, bool) {
+	if c.prelude == nil {
+		return nil, false
+	}
+	if sel, ok := ast.Unparen(call.Fun).(*ast.SelectorExpr); ok && c.ent(e, sel.X) == c.prelude {
+		if strings.HasPrefix(sel.Sel.Name, "Write") {
+			return call.Args, true
+		}
+		return nil, false
+	}
+	for i, a := range call.Args {
+		x := ast.Unparen(a)
+		if u, ok := x.(*ast.UnaryExpr); ok && u.Op == token.AND {
+			x = ast.Unparen(u.X)
+		}
+		if c.ent(e, x) != c.prelude {
+			continue
+		}
+		// handed over as a writer (not as a Stringer or a value to be read)
+		f := Callee(e.Info, call)
+		if f == nil {
+			return nil, false
+		}
+		sig := f.Type().(*types.Signature)
+		if i >= sig.Params().Len() {
+			return nil, false
+		}
+		pt := sig.Params().At(i).Type()
+		iface, isIface := pt.Underlying().(*types.Interface)
+		writer := false
+		if isIface {
+			for m := 0; m < iface.NumMethods(); m++ {
+				if strings.HasPrefix(iface.Method(m).Name(), "Write") {
+					writer = true
+				}
+			}
+		} else if _, dpkg := c.p.DeclOf(f); dpkg != nil {
+			return nil, false // a helper of the command: interpreted in place, its own writes are what counts
+		}
+		if !writer {
+			return nil, false
+		}
+		var rest []ast.Expr
+		for j, b := range call.Args {
+			if j != i {
+				rest = append(rest, b)
+			}
+		}
+		return rest, true
+	}
+	return nil, false
 }
 
 // outWrite: one write of SQL text to the output, whatever its spelling.
@@ -425,6 +510,9 @@ func (c *cliClient) Return(e *Engine, st *State, ret *ast.ReturnStmt) {
 	// C16/sticky
 	if st.Ext("logged") == "1" {
 		e.Site("C16/sticky", key, ret, nn, "a path that reported a failed statement returns a non-nil error")
+		if !nn && os.Getenv("PQL_DEBUG_C16") != "" {
+			fmt.Fprintln(os.Stderr, "STICKY", key, st.String())
+		}
 		if !nn {
 			e.Site("C16/sticky", key, ret, false, "a statement failed (logError was called) on a path to this return, but the returned error is not known to be non-nil: exit status 0 after a failure")
 		}
@@ -1067,6 +1155,7 @@ func ruleC16Carry(p *Program, r *Run, fd *ast.FuncDecl) {
 		flat(site.src)
 		var vars []types.Object
 		okShape := true
+		tailDirect := 0
 		for i, o := range ops {
 			if _, isConst := constString(info, o); isConst {
 				continue
@@ -1088,13 +1177,23 @@ func ruleC16Carry(p *Program, r *Run, fd *ast.FuncDecl) {
 			}) {
 				continue
 			}
+			// the pending text itself, taken from its buffer where it is used
+			if c2, isCall := o.(*ast.CallExpr); isCall && i > 0 && pending != nil {
+				if sel, ok := ast.Unparen(c2.Fun).(*ast.SelectorExpr); ok && sel.Sel.Name == "String" && isBuilder(info, sel.X) && p.entOf(sel.X) == pending {
+					tailDirect++
+					continue
+				}
+			}
 			if ob := objOf(info, o); ob != nil {
 				vars = append(vars, ob)
 				continue
 			}
 			okShape = false
 		}
-		okStmt := okShape && len(vars) == 1 && (vars[0] == rangeVal || (tailVar != nil && vars[0] == tailVar))
+		okStmt := okShape && len(vars) == 1 && tailDirect == 0 && (vars[0] == rangeVal || (tailVar != nil && vars[0] == tailVar))
+		if okShape && len(vars) == 0 && tailDirect == 1 {
+			okStmt = true
+		}
 		key := fmt.Sprintf("%s statement text of Compile call #%d", fn, k)
 		r.Check(okStmt, "C16/carry", key, p.Pos(call.Pos()), "the piece produced by the split (or the pending text at end of input), unmodified", "the text handed to pql.Compile is not exactly one piece of the split / the pending text: "+exprStr(site.src))
 	}
